@@ -68,7 +68,8 @@ func (r Registry) LookupInterface(name string) (*types.Interface, *types.TypePar
 		return nil, nil, fmt.Errorf("interface not found: %s", name)
 	}
 
-	if !types.IsInterface(obj.Type()) {
+	// a variable or constant of an interface type is not an interface either
+	if _, ok := obj.(*types.TypeName); !ok || !types.IsInterface(obj.Type()) {
 		return nil, nil, fmt.Errorf("%s (%s) is not an interface", name, obj.Type())
 	}
 
